@@ -545,7 +545,9 @@ def run(ctx):
                 check_string(ctx, real, w, 'T', dict(s='T', text=w, via=via))
             idx += 1
     ctx.stratum('T', exhaustive=True)
-    # S: exhaustive sequences
+    # S: exhaustive sequences (cumulative shares of the wall budget from here on: a stratum that is cut short on a loaded
+    # machine must not take the later ones with it - they have floors in MIN)
+    ctx.reserve(0.45)
     ctx.stratum('S', exhaustive=False)
     idx = 0
     for alpha, L in ((ALPHA8, b['L8']), (ALPHA6, b['L6'])):
@@ -567,6 +569,7 @@ def run(ctx):
             break
     ctx.stratum('S', exhaustive=done)
     # E: corruptions of grammatical sentences
+    ctx.reserve(0.6)
     rnd = ctx.rnd
     pools = [expr.sentences(n) for n in range(1, 14)]
     pools = [p for p in pools if p]
@@ -580,6 +583,7 @@ def run(ctx):
         check_string(ctx, real, text, 'E', dict(s='E', text=text, via='dict' if i % 6 else ('file-json', 'file-yaml')[(i // 6) % 2]))
     ctx.stratum('E', exhaustive=False)
     # R: random strings
+    ctx.reserve(0.72)
     for i in range(b['nR'] // ctx.nshards + 1):
         if (i & 0xff) == 0 and ctx.expired():
             break
@@ -590,6 +594,7 @@ def run(ctx):
         check_string(ctx, real, text, 'R', dict(s='R', text=text, via=via), readings=ALL_READINGS)
     ctx.stratum('R', exhaustive=False)
     # LS: lists of arbitrary strings
+    ctx.reserve(0.8)
     pool = WORDS + LONE + [f for f in FRAGS if f.strip()] + ['role:a', 'role:b', '@', '!', 'role:a and role:b', 'not role:a', '(role:a)']
     for i in range(b['nR'] // (4 * ctx.nshards) + 1):
         if (i & 0xff) == 0 and ctx.expired():
